@@ -337,5 +337,19 @@ _ADD = {
     'C05': 'Aromatic texts as a person writes them (bond between two aromatic rings left implicit; one or two hetero atoms that the library repairs by rule), each paired with a Kekule text in the same atom order: kekule, enumerate_kekule, copy+kekule and enumerate-then-kekule as the FIRST conversion of the freshly parsed object under every GEN renumbering.',
     'C02': 'Isotopic hydrogen atoms on stereo elements, even cumulenes and substituted allenes are part of the families.',
 }
-for _k, _v in _ADD.items():
+_ADD2 = {
+    'C02': 'One-atom molecules for 118 elements x charge -4..+4 x radical x isotope (restored, pairwise distinct strings); chains / two chains / ion pair + chain of 11-13 atoms with radicals at every position (two-digit indices in the extension block).',
+    'C04': 'Bracket atoms as delivered by the SMILES reader (12 elements x H {none,0..4} x charge -2..2 x 7 frames x radical mark) must carry a hydrogen count for which their state has a valence entry.',
+    'C05': 'Azolide anions and ring radicals are in the family; hydrogen counts the aromatic form carries as parsed must equal those of the Kekule text.',
+    'C08': 'Atoms with three or four double bonds and with a triple next to a double bond are in the molecule set.',
+    'C09': 'Every element 1..118 as molecule atom x hybridisation label 1..4 x constrained queries of each kind; derived objects (copies, enumerated Kekule forms, enumerated tautomers, substructure, union, in-place kekule) of a molecule whose packed structure is cached.',
+    'C12': 'A carbinol centre between two equal tri-substituted double bonds: label present exactly when the arms differ (hand-asserted), under every own and RDKit spelling.',
+    'C13': 'I0: rebuilding a parsed molecule keeps its labels; I6: an in-place edit that leaves a labelled element and its substituents untouched, the element still stereogenic by colour refinement, keeps label and sign; the public cis/trans call from either end is an event; an allene is among the quick medium seeds.',
+    'C14': 'The set of enumerated tautomers (canonical strings) of 17 azoles and the tautomer-stereo family is the same for every numbering, with the aromaticity pruning off and on.',
+    'C15': 'Order invariance is also required of format(reaction, spec) for 9 option strings; the option !c must keep the given order.',
+    'C16': 'The model stage includes reactant pairs with 2x3, 3x2, 2x4 and 3x4 non-equivalent sites.',
+    'C17': 'The direction of a chain text is a function of the structure (judged apart from the recorded aromatic-case finding).',
+    'C18': 'Element(delta_isotope=d), d in -1, 0, +1, gives reference + d and its tabulated mass.',
+}
+for _k, _v in list(_ADD.items()) + list(_ADD2.items()):
     CHECKS[_k]['text'] += ' ' + _v
